@@ -233,10 +233,43 @@ func sliceMatrixForms() []Form {
 	return out
 }
 
+// scopeMatrixForms: every way of binding a name x every construct that opens a
+// scope; the inner name shadows the environment's `a` (read again by the common
+// epilogue after the scope has closed) and is both written and read inside.
+func scopeMatrixForms() []Form {
+	binders := [][2]string{
+		{"define", "a := x + 100"},
+		{"varinit", "var a uint64 = x + 100"},
+		{"varzero", "var a uint64"},
+		{"multidefine", "a, ok := two(x)\nrb = ok"},
+	}
+	scopes := [][2]string{
+		{"block", "{\n$\n}"},
+		{"ifbody", "if t || x < 50 {\n$\n}"},
+		{"elsebody", "if x > 1000 {\n\tr = 1\n} else {\n$\n}"},
+		{"forbody", "for si := uint64(0); si < 2; si++ {\n$\n}"},
+		{"rangebody", "for _, sv0 := range xs {\n\tr += sv0\n$\n}"},
+		{"closure", "fn := func() {\n$\n}\nfn()"},
+		{"block2", "{\n\t{\n\t$\n\t}\n\tr += a\n}"},
+	}
+	var out []Form
+	for _, b := range binders {
+		for _, sc := range scopes {
+			body := b[1] + "\nr += a"
+			if strings.HasPrefix(b[1], "var ") { // only var-declared locals are assignable in the subset
+				body = b[1] + "\na = a + 1\nr += a"
+			}
+			inner := indent(body, 1)
+			out = append(out, f("scope_"+b[0]+"_"+sc[0], strings.Replace(sc[1], "$", inner, 1)))
+		}
+	}
+	return out
+}
+
 // CoreForms returns every core form.
 func CoreForms() []Form {
 	var out []Form
-	for _, g := range [][]Form{binopForms(), convForms(), assignForms(), dataForms(), callForms(), compoundForms(), sliceMatrixForms()} {
+	for _, g := range [][]Form{binopForms(), convForms(), assignForms(), dataForms(), callForms(), compoundForms(), sliceMatrixForms(), scopeMatrixForms()} {
 		out = append(out, g...)
 	}
 	return out
